@@ -477,6 +477,23 @@ func allBefore(evA, evB []event) bool {
 	return true
 }
 
+// eitherOrder: an event of A and an event of B lie on a common cycle (both parsed inside one loop): which of the
+// two comes later in the text depends on the input.
+func eitherOrder(evA, evB []event) bool {
+	for _, a := range evA {
+		for _, b := range evB {
+			if a.entry || b.entry || a.in == nil || b.in == nil || a.in.Parent() != b.in.Parent() {
+				continue
+			}
+			ab, bb := a.in.Block(), b.in.Block()
+			if ab != bb && blockReaches(ab, bb) && blockReaches(bb, ab) {
+				return true
+			}
+		}
+	}
+	return false
+}
+
 // anyBefore: some event of A happens before some event of B on a path that executes both.
 func anyBefore(evA, evB []event) bool {
 	for _, a := range evA {
